@@ -1156,6 +1156,11 @@ func (en *env) callExpr(v *ECall) tval {
 				}
 			}
 		}
+		// not carried by the loop (never reassigned on a path that continues): its value on
+		// loop entry
+		if tv, ok := en.e.resolveSourceVar(id.Name, en.iterLoop, en.st); ok {
+			return tv
+		}
 		en.fail("athead(%s): no such loop variable", id.Name)
 	case "sameobj":
 		// sameobj(x, y): two references (of whatever static types) denote the same address; the
